@@ -55,7 +55,8 @@ def handle (j : Json) : Json :=
     (if exclLegacyURLForm kind d r then ["LegacyURLForm"] else []) ++
     (if exclLegacyFirstServer kind d r then ["LegacyFirstServer"] else []) ++
     (if exclLegacyPathServers kind d r then ["LegacyPathServers"] else []) ++
-    (if exclLegacyKeyCollision kind d then ["LegacyKeyCollision"] else [])
+    (if exclLegacyKeyCollision kind d then ["LegacyKeyCollision"] else []) ++
+    (if exclSrvVarDot d r then ["SrvVarDot"] else [])
   -- legacy: the other outcomes that a different insertion order of colliding keys gives
   let alts := if kind = .legacy ∧ keyCollision (docKeys d) then (legacyFindAll d r).filter (· ≠ model) else []
   let pre := if kind = .legacy then "l." else "g."
